@@ -1,4 +1,5 @@
 import LJT.Proofs.ICC
+import LJT.Proofs.HeaderIO
 import LJT.Model.Header
 import LJT.Proofs.CopyOpt
 /-!
@@ -95,5 +96,46 @@ theorem copy_option_spec (hist : List Opt) (o : Opt) (wj wa : Bool) (src : List 
 
 -- non-vacuity: a 70000-byte profile needs two segments and meets the hypotheses
 example : 1 ≤ 70000 ∧ 70000 ≤ 255 * 65519 ∧ numMarkers 70000 = 2 := by decide
+
+
+open LJT.HeaderIO in
+/-- **Pixel density, units and JFIF version round-trip** through `emit_jfif_app0` and `examine_app0`, for every
+value the fields can hold and **whatever length limit** an application gave `jpeg_save_markers` for APP0
+(none, 0, below or above the 14 bytes the library needs): the marker reader sees at least those 14 bytes. -/
+theorem jfif_fields_roundtrip (j : Jfif) (h1 : j.major < 256) (h2 : j.minor < 256) (h3 : j.unit < 256)
+    (h4 : j.xd < 65536) (h5 : j.yd < 65536) (limit : Nat) :
+    examineApp0 ((jfifPayload j).take (examinedLen 0xE0 limit 14)) = some j :=
+  jfif_roundtrip j h1 h2 h3 h4 h5 limit
+
+open LJT.HeaderIO in
+/-- **The Adobe colour-transform byte round-trips** (how CMYK / YCCK / RGB files tell their colourspace), under any
+APP14 save limit. -/
+theorem adobe_transform_roundtrip (t : Nat) (h : t < 256) (limit : Nat) :
+    examineApp14 ((adobePayload t).take (examinedLen 0xEE limit 12)) = some t :=
+  adobe_roundtrip t h limit
+
+open LJT.HeaderIO in
+/-- **Frame header round trip**: data precision, height, width, and per component the identifier, both sampling
+factors and the quantisation-table selector, for every frame `emit_sof` can write (dimensions 1..65535, 1..255
+components, sampling factors and selectors that fit their fields). -/
+theorem frame_header_roundtrip (s : Sof) (hp : s.precision < 256) (hh1 : 1 ≤ s.height) (hh : s.height < 65536)
+    (hw1 : 1 ≤ s.width) (hw : s.width < 65536) (hn1 : 1 ≤ s.comps.length) (hn : s.comps.length < 256)
+    (hc : ∀ c ∈ s.comps, c.id < 256 ∧ c.h < 16 ∧ c.v < 16 ∧ c.tq < 256) :
+    parseSof (sofBytes s) = some s :=
+  sof_roundtrip s hp hh1 hh hw1 hw hn1 hn hc
+
+open LJT.HeaderIO in
+/-- **Restart interval, predictor selection value and point transform round-trip** (DRI; the `Ss Se Ah|Al` bytes
+that end a scan header carry the lossless predictor in `Ss` and the point transform in `Al`). -/
+theorem restart_and_scan_parameters_roundtrip (ri ss se ah al : Nat) (h0 : ri < 65536) (h1 : ss < 256) (h2 : se < 256)
+    (h3 : ah < 16) (h4 : al < 16) :
+    parseDri (driBytes ri) = some ri ∧ parseSosParams (sosParams ss se ah al) = some (ss, se, ah, al) :=
+  ⟨dri_roundtrip ri h0, sos_params_roundtrip ss se ah al h1 h2 h3 h4⟩
+
+-- non-vacuity
+open LJT.HeaderIO in
+example : parseSof (sofBytes ⟨8, 480, 640, [⟨1, 2, 2, 0⟩, ⟨2, 1, 1, 1⟩, ⟨3, 1, 1, 1⟩]⟩) =
+    some ⟨8, 480, 640, [⟨1, 2, 2, 0⟩, ⟨2, 1, 1, 1⟩, ⟨3, 1, 1, 1⟩]⟩ := by decide +kernel
+
 
 end LJT.C16
